@@ -107,9 +107,89 @@ pub proof fn lemma_c10_plain(rt: nat, sp: nat, s: nat)
         /*[C10 spread.rej-plain]*/ (r matches Err(ContractError::MaxSpreadAssertion {})) && max_spread is Some && belief_price is None ==> c10_rej_plain(norm_ret(offer_decimal, return_decimal, return_asset.amount.0 as nat),
             norm_ret(offer_decimal, return_decimal, spread_amount.0 as nat), max_spread->Some_0.0 as nat),
 //%%head
-    broadcast use group_q_errors;
 //%%insert before #1 /let expected_return = offer_amount \/ belief_price;/
         proof { if belief_price.0.v() > 0 { lemma_c10_belief(offer_amount.0.v(), return_amount.0.v(), belief_price.0.v(), max_spread.0.v()); } }
 //%%insert before #1 /if Decimal256::from_ratio\(spread_amount, return_amount \+ spread_amount\) > max_spread/
         proof { if return_amount.0.v() + spread_amount.0.v() > 0 { lemma_c10_plain(return_amount.0.v(), spread_amount.0.v(), max_spread.0.v()); } }
+//%end
+
+// ---- C15: slippage tolerance on provision ----
+pub open spec fn sl_ratio(x: nat, y: nat) -> nat { x * dd() / y }
+pub open spec fn sl_drop(a: nat, b: nat, t: nat) -> nat { (a * dd() / b) * ((dd() - t) as nat) / dd() }
+pub open spec fn slip_rejects(t: nat, d0: nat, d1: nat, r0: nat, r1: nat) -> bool { sl_drop(d0, d1, t) > sl_ratio(r0, r1) || sl_drop(d1, d0, t) > sl_ratio(r1, r0) }
+// (a/b)*(1-t) < x/y + 2*10^-18, cross-multiplied
+pub open spec fn c15_ok(a: nat, b: nat, x: nat, y: nat, t: nat) -> bool { a * (dd() - t) * y < (x * dd() + 2 * y) * b }
+// (a/b)*(1-t) <= x/y - 10^-18, cross-multiplied
+pub open spec fn c15_safe(a: nat, b: nat, x: nat, y: nat, t: nat) -> bool { a * (dd() - t) * y <= (x * dd() - y) * b }
+pub proof fn lemma_c15(a: nat, b: nat, x: nat, y: nat, t: nat)
+    requires b > 0, y > 0, t <= dd()
+    ensures
+        sl_drop(a, b, t) <= sl_ratio(x, y) ==> c15_ok(a, b, x, y, t),
+        c15_safe(a, b, x, y, t) ==> sl_drop(a, b, t) <= sl_ratio(x, y),
+{
+    let d = dd(); let e = (d - t) as nat; let aa = a * d / b; let p = aa * e / d; let l = x * d / y;
+    lemma_fundamental_div_mod((a * d) as int, b as int); lemma_mod_bound((a * d) as int, b as int);
+    lemma_fundamental_div_mod((aa * e) as int, d as int); lemma_mod_bound((aa * e) as int, d as int);
+    lemma_fundamental_div_mod((x * d) as int, y as int); lemma_mod_bound((x * d) as int, y as int);
+    assert(b * aa <= a * d && a * d < b * aa + b);
+    assert(d * p <= aa * e && aa * e < d * p + d);
+    assert(y * l <= x * d && x * d < y * l + y);
+    if p <= l {
+        if e == 0 {
+            assert(a * e * y == 0) by(nonlinear_arith) requires e == 0;
+            assert((x * d + 2 * y) * b > 0) by(nonlinear_arith) requires y > 0, b > 0;
+        } else {
+            assert((a * d) * e < (b * aa + b) * e) by(nonlinear_arith) requires a * d < b * aa + b, e > 0;
+            assert((b * aa + b) * e == b * (aa * e) + b * e) by(nonlinear_arith);
+            assert(b * (aa * e) < b * (d * p + d)) by(nonlinear_arith) requires aa * e < d * p + d, b > 0;
+            assert(b * e <= b * d) by(nonlinear_arith) requires e <= d;
+            assert(b * (d * p + d) + b * d == (p + 2) * b * d) by(nonlinear_arith);
+            assert((a * d) * e == (a * e) * d) by(nonlinear_arith);
+            assert((a * e) * d < ((p + 2) * b) * d) by(nonlinear_arith) requires (a * e) * d < (p + 2) * b * d;
+            assert(a * e < (p + 2) * b) by(nonlinear_arith) requires (a * e) * d < ((p + 2) * b) * d, d > 0;
+            assert((p + 2) * b <= (l + 2) * b) by(nonlinear_arith) requires p <= l;
+            assert((a * e) * y < ((l + 2) * b) * y) by(nonlinear_arith) requires a * e < (l + 2) * b, y > 0;
+            assert(((l + 2) * b) * y == (y * l + 2 * y) * b) by(nonlinear_arith);
+            assert((y * l + 2 * y) * b <= (x * d + 2 * y) * b) by(nonlinear_arith) requires y * l <= x * d;
+            assert(a * e * y == (a * e) * y) by(nonlinear_arith);
+        }
+    }
+    if c15_safe(a, b, x, y, t) {
+        // p*y <= x*d - y < l*y
+        assert(a * e * y <= (x * d - y) * b);
+        assert((d * p) * (b * y) <= (aa * e) * (b * y)) by(nonlinear_arith) requires d * p <= aa * e;
+        assert((aa * e) * (b * y) == (b * aa) * (e * y)) by(nonlinear_arith);
+        assert((b * aa) * (e * y) <= (a * d) * (e * y)) by(nonlinear_arith) requires b * aa <= a * d;
+        assert((a * d) * (e * y) == (a * e * y) * d) by(nonlinear_arith);
+        assert((a * e * y) * d <= ((x * d - y) * b) * d) by(nonlinear_arith) requires a * e * y <= (x * d - y) * b, d > 0;
+        assert((d * p) * (b * y) == (p * y) * (b * d)) by(nonlinear_arith);
+        assert(((x * d - y) * b) * d == (x * d - y) * (b * d)) by(nonlinear_arith);
+        assert(b * d > 0) by(nonlinear_arith) requires b > 0, d > 0;
+        assert(p * y <= x * d - y) by(nonlinear_arith) requires (p * y) * (b * d) <= (x * d - y) * (b * d), b * d > 0;
+        assert(p * y < l * y) by(nonlinear_arith) requires p * y <= x * d - y, x * d < y * l + y;
+        assert(p < l) by(nonlinear_arith) requires p * y < l * y, y > 0;
+    }
+}
+
+//%fn contracts/halo-pair/src/assert.rs | - | assert_slippage_tolerance
+//%%sig
+    ensures
+        /*[C15 slip.none-ok]*/ slippage_tolerance is None ==> r is Ok,
+        /*[C15 slip.above-one-rejected]*/ slippage_tolerance matches Some(t) ==> t.0 as nat > dd() ==> r is Err && !(r matches Err(ContractError::MaxSlippageAssertion {})),
+        /*[C15 slip.ok-not-rejected]*/ slippage_tolerance matches Some(t) ==> r is Ok ==> t.0 as nat <= dd() && !slip_rejects(t.0 as nat, deposits[0].0 as nat, deposits[1].0 as nat, pools[0].amount.0 as nat, pools[1].amount.0 as nat),
+        /*[C15 slip.err-is-guard]*/ slippage_tolerance matches Some(t) ==> (r matches Err(ContractError::MaxSlippageAssertion {})) ==> t.0 as nat <= dd() && slip_rejects(t.0 as nat, deposits[0].0 as nat, deposits[1].0 as nat, pools[0].amount.0 as nat, pools[1].amount.0 as nat),
+        /*[C15 slip.ok-within-tolerance]*/ slippage_tolerance matches Some(t) ==> r is Ok ==>
+            c15_ok(deposits[0].0 as nat, deposits[1].0 as nat, pools[0].amount.0 as nat, pools[1].amount.0 as nat, t.0 as nat)
+            && c15_ok(deposits[1].0 as nat, deposits[0].0 as nat, pools[1].amount.0 as nat, pools[0].amount.0 as nat, t.0 as nat),
+        /*[C15 slip.never-rejected-when-safe]*/ slippage_tolerance matches Some(t) ==> (r matches Err(ContractError::MaxSlippageAssertion {})) ==>
+            !(c15_safe(deposits[0].0 as nat, deposits[1].0 as nat, pools[0].amount.0 as nat, pools[1].amount.0 as nat, t.0 as nat)
+              && c15_safe(deposits[1].0 as nat, deposits[0].0 as nat, pools[1].amount.0 as nat, pools[0].amount.0 as nat, t.0 as nat)),
+//%%head
+    broadcast use mlem::lemma_decimal_fractional;
+//%%insert before #1 /\/\/ Ensure each prices are not dropped/
+        proof {
+            let t = slippage_tolerance.0.v();
+            if deposits[1].0.v() > 0 && pools[1].0.v() > 0 { lemma_c15(deposits[0].0.v(), deposits[1].0.v(), pools[0].0.v(), pools[1].0.v(), t); }
+            if deposits[0].0.v() > 0 && pools[0].0.v() > 0 { lemma_c15(deposits[1].0.v(), deposits[0].0.v(), pools[1].0.v(), pools[0].0.v(), t); }
+        }
 //%end
